@@ -38,6 +38,9 @@ def instances(tier):
         kind = spans.FAMILIES[fam][2]
         n = N if kind == "fixed" else 2
         out.append(dict(id="counts-%s-N%d" % (fam, n), family=fam, N=n, mode="counts", dense=(fam in ("euler", "dopri45")), budget=b))
+    # the caller's callbacks LIST is edited while the run is in progress (a monitor unsubscribes itself at its first invocation): the callbacks
+    # the call was given are still invoked in the order given, once per recorded step
+    out.append(dict(id="callback-unsubscribes-itself-euler-N3", family="euler", N=3, mode="counts", unsubscribe=True, budget=b))
     out.append(dict(id="callback-dt-euler-N2", family="euler", N=2, mode="cbdt", budget=b))
     out.append(dict(id="callback-dt-sympl_euler-N2", family="sympl_euler", N=2, mode="cbdt", budget=b))
     # the callbacks of a SHORT first call (target nearer than the working step) assign dt; the continuation call starts with that step
@@ -170,7 +173,16 @@ def scenario(c, inst):
 
     with spans.stubs_for(c, inst, log["root"]):
         if mode == "counts":
-            st, r = run(a.integrate, callback=[mk_cb("A"), mk_cb("B"), capcb])
+            cbs = [mk_cb("A"), mk_cb("B"), capcb]
+            if inst.get("unsubscribe"):
+                first = cbs[0]
+
+                def unsubscribing(system):
+                    first(system)
+                    if unsubscribing in cbs:
+                        cbs.remove(unsubscribing)       # the user's own list, not the call's
+                cbs[0] = unsubscribing
+            st, r = run(a.integrate, callback=cbs)
             if st != "ok":
                 return   # failures: C12
             T = list(a.t)
